@@ -66,10 +66,12 @@ class IkeSaController:
                 return None
 
         # generate the reply (if any)
+        rekeyed_states = (IkeSa.State.REKEYED, IkeSa.State.DEL_AFTER_REKEY_IKE_SA_REQ_SENT)
+        was_rekeyed = ike_sa.state in rekeyed_states
         reply = ike_sa.process_message(data)
 
-        # if rekeyed, add the new IkeSa
-        if ike_sa.state in (IkeSa.State.REKEYED, IkeSa.State.DEL_AFTER_REKEY_IKE_SA_REQ_SENT):
+        # if rekeyed by this message (and not by an earlier one), add the new IkeSa
+        if ike_sa.state in rekeyed_states and not was_rekeyed:
             self.ike_sas.append(ike_sa.new_ike_sa)
             logging.info(f'IKE SA={ike_sa.new_ike_sa} created by rekey. Count={len(self.ike_sas)}')
 
